@@ -22,7 +22,8 @@ RULE = ("objects: IBAN, BIC and BBAN (several countries) built with validation o
 TEXTS = ["", "A", "a", "B", "AA", "0", "ß", "DE89370400440532013000", "DE89 3704 0044 0532 0130 00",
          "de89370400440532013000", "GB29NWBK60161331926819", "GENODEM1GLS", "GENODEM1", "genodem1gls",
          "GENO DE M1 GLS", "370400440532013000", "Z", "DE89370400440532013001", "GENODEM1XXX",
-         "GENODEM1GL", "DE89370400440532013"]
+         "GENODEM1GL", "DE89370400440532013", "DE89370400440532013000\n", " DE89370400440532013000",
+         "GENODEM1GLS ", "nwbk60161331926819"]
 COMPS = reg.COMPONENTS
 
 
@@ -33,7 +34,8 @@ def build_values():
         vals.append((f"str:{t!r}", (lambda t=t: t)))
         vals.append((f"IBAN*:{t!r}", (lambda t=t: lib.IBAN(t, allow_invalid=True))))
         vals.append((f"BIC*:{t!r}", (lambda t=t: lib.BIC(t, allow_invalid=True))))
-    for t in ["", "A", "370400440532013000", "NWBK60161331926819", "3704 0044 0532 0130 00"]:
+    for t in ["", "A", "370400440532013000", "NWBK60161331926819", "3704 0044 0532 0130 00",
+              "nwbk60161331926819", "nwbk 6016 1331 9268 19"]:
         for cc in ("DE", "GB"):
             vals.append((f"BBAN:{cc}:{t!r}", (lambda t=t, cc=cc: lib.BBAN(cc, t))))
     for t in ["DE89370400440532013000", "GB29NWBK60161331926819", "de89 3704 0044 0532 0130 00"]:
